@@ -26,34 +26,59 @@ func vC16Oracle(prog, impl []string) (string, string) {
 			next = 0
 			winners = map[int64]int{}
 		case "append":
-			if len(f) != 4 {
-				continue // batches are refused by the sequencer (batch size 1); modelled as panic
+			// one Append call = one batch; message i of an accepted batch is assigned next+i
+			toks := f[3:]
+			exps := make([]int64, len(toks))
+			for j, tk := range toks {
+				p := strings.Split(tk, "/")
+				exps[j], _ = strconv.ParseInt(p[3], 10, 64)
 			}
-			p := strings.Split(f[3], "/")
-			exp, _ := strconv.ParseInt(p[3], 10, 64)
-			should := exp == -1 || exp == next
+			if out == "panic" && len(toks) > 1 {
+				continue // a batch of several messages is refused outright (the sequencer never forms one)
+			}
 			st := ""
 			if k := strings.Index(out, "| "); k >= 0 {
 				st = out[k+2:]
 			}
+			firstWrong := -1
+			for j, e := range exps {
+				if e != -1 && e != next+int64(j) {
+					firstWrong = j
+					break
+				}
+			}
 			switch {
 			case strings.HasPrefix(out, "ok "):
-				if !should {
-					return fmt.Sprintf("op %d: publish expecting %d stored although next offset was %d", i, exp, next), "occ-stored-wrong-offset"
+				if firstWrong >= 0 {
+					return fmt.Sprintf("op %d: message %d expecting %d stored although it is assigned %d", i, firstWrong, exps[firstWrong], next+int64(firstWrong)), "occ-stored-wrong-offset"
 				}
-				if got := strings.Fields(out)[1]; got != fmt.Sprintf("[%d]", next) {
-					return fmt.Sprintf("op %d: stored at %s, want [%d]", i, got, next), "occ-stored-wrong-offset"
+				want := make([]string, len(exps))
+				for j := range exps {
+					want[j] = strconv.FormatInt(next+int64(j), 10)
 				}
-				if exp != -1 {
-					winners[exp]++
-					if winners[exp] > 1 {
-						return fmt.Sprintf("op %d: second winner for expected offset %d", i, exp), "occ-two-winners"
+				if got := strings.Fields(out)[1]; got != "["+strings.Join(want, ",")+"]" {
+					return fmt.Sprintf("op %d: stored at %s, want [%s]", i, got, strings.Join(want, ",")), "occ-stored-wrong-offset"
+				}
+				for _, e := range exps {
+					if e != -1 {
+						winners[e]++
+						if winners[e] > 1 {
+							return fmt.Sprintf("op %d: second winner for expected offset %d", i, e), "occ-two-winners"
+						}
 					}
 				}
-				next++
+				next += int64(len(exps))
 			case strings.HasPrefix(out, "err incorrect-offset"):
-				if should {
-					return fmt.Sprintf("op %d: publish expecting %d rejected although next offset was %d", i, exp, next), "occ-rejected-correct"
+				if firstWrong < 0 {
+					return fmt.Sprintf("op %d: publish expecting %v rejected although next offset was %d", i, exps, next), "occ-rejected-correct"
+				}
+				for j, e := range exps {
+					if e == -1 {
+						return fmt.Sprintf("op %d: message %d waives the check but was rejected with the batch (message %d expected %d, next offset %d)", i, j, firstWrong, exps[firstWrong], next), "occ-waived-publish-rejected"
+					}
+				}
+				if exps[0] == next {
+					return fmt.Sprintf("op %d: the first message expects %d = the offset it is assigned, but was rejected with the batch", i, next), "occ-rejected-correct"
 				}
 				// log unchanged apart from a possible segment roll: same newest, same record count
 				if vStateInt(st, "new") != next-1 {
@@ -83,6 +108,8 @@ func TestVerifC16(t *testing.T) {
 	defer res.Write(t)
 	rnd := vNewRand(16)
 
+	seenTag := map[string]bool{}
+	nspec := 0
 	check := func(prog []string) {
 		impl, mod := vRunBoth(t, model, prog)
 		acc, rej := false, false
@@ -99,7 +126,11 @@ func TestVerifC16(t *testing.T) {
 			res.Sample(map[string]interface{}{"program": prog, "impl": impl})
 		}
 		if f, tag := vC16Oracle(prog, impl); f != "" {
-			res.Fail(vFailure{Kind: "spec", Case: prog, Impl: impl, Model: mod, Detail: f, Tag: tag})
+			nspec++
+			if !seenTag[tag] { // one concrete input per tag
+				seenTag[tag] = true
+				res.Fail(vFailure{Kind: "spec", Case: prog, Impl: impl, Model: mod, Detail: f, Tag: tag})
+			}
 			return
 		}
 		if d := vFirstDiff(impl, mod); d >= 0 {
@@ -182,10 +213,17 @@ func TestVerifC16(t *testing.T) {
 			if rnd.Intn(25) == 0 {
 				prog = append(prog, fmt.Sprintf("append 1 %d 61/aa/_/-1 61/bb/_/-1", 5000+i)) // batch: panics
 			}
+			if rnd.Intn(25) == 0 {
+				// batch mixing an unconditional or right message with a wrong one: panics as well
+				a := []int64{-1, next}[rnd.Intn(2)]
+				b := []int64{next, next + 7, -2}[rnd.Intn(3)]
+				prog = append(prog, fmt.Sprintf("append 1 %d 61/cc/_/%d 61/dd/_/%d", 6000+i, a, b))
+				res.Dist("gen:mixed-batch")
+			}
 		}
 		prog = append(prog, "read 0 u")
 		check(prog)
-		if len(res.Failures) >= 10 {
+		if len(res.Failures) >= 10 || nspec >= 10 {
 			break
 		}
 	}
